@@ -1,6 +1,7 @@
 package nfa
 
 import (
+	"sync"
 	"unicode/utf8"
 
 	"github.com/coregx/coregex/internal/conv"
@@ -90,9 +91,15 @@ type PikeVM struct {
 	nfa       *NFA
 	skipAhead SkipAhead // Optional prefilter for skip-ahead (nil = disabled)
 
-	// internalState is used by legacy non-thread-safe methods.
-	// For concurrent usage, use *WithState methods with external PikeVMState.
+	// internalState is the mutable search state (thread queues, visited set,
+	// slot tables) used by every search method.
 	internalState PikeVMState
+
+	// mu serializes the search methods: one PikeVM is shared by every
+	// goroutine that uses the same Engine, lazy DFA or reverse searcher
+	// (fallback and refinement paths), and they all work on internalState.
+	// PikeVMs owned by a pooled SearchState only ever see an uncontended lock.
+	mu sync.Mutex
 }
 
 // PikeVMState holds mutable per-search state for PikeVM.
@@ -413,7 +420,6 @@ func updateCapture(caps cowCaptures, groupIndex uint32, isStart bool, pos int) c
 // This method uses internal state and is NOT thread-safe.
 // For concurrent usage, use SearchWithState.
 func (p *PikeVM) Search(haystack []byte) (int, int, bool) {
-	p.ensureInternalState()
 	return p.SearchAt(haystack, 0)
 }
 
@@ -424,6 +430,8 @@ func (p *PikeVM) Search(haystack []byte) (int, int, bool) {
 // This is significantly faster than Search() when you only need to know
 // if a match exists, not where it is.
 func (p *PikeVM) IsMatch(haystack []byte) bool {
+	p.mu.Lock()
+	defer p.mu.Unlock()
 	p.ensureInternalState()
 	if len(haystack) == 0 {
 		return p.matchesEmpty()
@@ -745,6 +753,8 @@ func (p *PikeVM) addThreadToNextForMatch(id StateID, haystack []byte, pos int) {
 // Unlike Search, it takes the FULL haystack and a starting position, so assertions
 // like ^ correctly check against the original input start, not a sliced position.
 func (p *PikeVM) SearchAt(haystack []byte, at int) (int, int, bool) {
+	p.mu.Lock()
+	defer p.mu.Unlock()
 	p.ensureInternalState()
 	if at > len(haystack) {
 		return -1, -1, false
@@ -894,6 +904,8 @@ func (p *PikeVM) searchUnanchoredAt(haystack []byte, startAt int) (int, int, boo
 //
 // Performance: O(maxEnd - startAt) instead of O(len(haystack) - startAt).
 func (p *PikeVM) SearchBetween(haystack []byte, startAt, maxEnd int) (int, int, bool) {
+	p.mu.Lock()
+	defer p.mu.Unlock()
 	p.ensureInternalState()
 	if startAt > len(haystack) || startAt >= maxEnd {
 		return -1, -1, false
@@ -993,7 +1005,6 @@ func (p *PikeVM) searchUnanchoredBetween(haystack []byte, startAt, maxEnd int) (
 // SearchWithCaptures finds the first match with capture group positions.
 // Returns nil if no match is found.
 func (p *PikeVM) SearchWithCaptures(haystack []byte) *MatchWithCaptures {
-	p.ensureInternalState()
 	return p.SearchWithCapturesAt(haystack, 0)
 }
 
@@ -1004,6 +1015,8 @@ func (p *PikeVM) SearchWithCaptures(haystack []byte) *MatchWithCaptures {
 // This method is used by FindAll* operations to correctly handle anchors like ^.
 // Unlike SearchWithCaptures, it takes the FULL haystack and a starting position.
 func (p *PikeVM) SearchWithCapturesAt(haystack []byte, at int) *MatchWithCaptures {
+	p.mu.Lock()
+	defer p.mu.Unlock()
 	p.ensureInternalState()
 	if at > len(haystack) {
 		return nil
@@ -1184,6 +1197,8 @@ func (p *PikeVM) searchAtWithCaptures(haystack []byte, startPos int) *MatchWithC
 //
 //nolint:gocognit // Merged match-check + step loop (Rust's nexts pattern) is inherently complex
 func (p *PikeVM) SearchWithCapturesInSpan(haystack []byte, spanStart, spanEnd int) *MatchWithCaptures {
+	p.mu.Lock()
+	defer p.mu.Unlock()
 	p.ensureInternalState()
 	if spanStart > spanEnd || spanEnd > len(haystack) {
 		return nil
@@ -1288,6 +1303,8 @@ func (p *PikeVM) buildCapturesResult(caps []int, matchStart, matchEnd int) [][]i
 // SearchAll finds all non-overlapping matches in the haystack.
 // Returns a slice of matches in order of occurrence.
 func (p *PikeVM) SearchAll(haystack []byte) []Match {
+	p.mu.Lock()
+	defer p.mu.Unlock()
 	p.ensureInternalState()
 	var matches []Match
 	pos := 0
@@ -1683,7 +1700,6 @@ func checkLookAssertion(look Look, haystack []byte, pos int) bool {
 //
 // This method uses internal state and is NOT thread-safe.
 func (p *PikeVM) SearchWithSlotTable(haystack []byte, mode SearchMode) (int, int, bool) {
-	p.ensureInternalState()
 	return p.SearchWithSlotTableAt(haystack, 0, mode)
 }
 
@@ -1697,6 +1713,8 @@ func (p *PikeVM) SearchWithSlotTable(haystack []byte, mode SearchMode) (int, int
 //
 // Returns (start, end, found) for the first match.
 func (p *PikeVM) SearchWithSlotTableAt(haystack []byte, at int, mode SearchMode) (int, int, bool) {
+	p.mu.Lock()
+	defer p.mu.Unlock()
 	p.ensureInternalState()
 	if at > len(haystack) {
 		return -1, -1, false
@@ -2164,7 +2182,6 @@ func (p *PikeVM) addSearchThreadToNext(t searchThread, srcState StateID, haystac
 // SearchWithSlotTableCaptures finds the first match and returns captures.
 // Uses zero-allocation SlotTable architecture (Rust approach).
 func (p *PikeVM) SearchWithSlotTableCaptures(haystack []byte) *MatchWithCaptures {
-	p.ensureInternalState()
 	return p.SearchWithSlotTableCapturesAt(haystack, 0)
 }
 
@@ -2172,6 +2189,8 @@ func (p *PikeVM) SearchWithSlotTableCaptures(haystack []byte) *MatchWithCaptures
 // Uses dual SlotTable (curr/next) for zero-allocation capture tracking.
 // Matches Rust's PikeVM Cache with curr/next ActiveStates (pikevm.rs:1878).
 func (p *PikeVM) SearchWithSlotTableCapturesAt(haystack []byte, at int) *MatchWithCaptures {
+	p.mu.Lock()
+	defer p.mu.Unlock()
 	p.ensureInternalState()
 	if at > len(haystack) {
 		return nil
